@@ -181,7 +181,7 @@ def _validate_chunk(module, cfg, lines, dest, timeout, cover=False):
 COVERABLE = {"JobTrace.tla", "WorkerTrace.tla", "FsTrace.tla", "ProcTrace.tla"}
 
 
-def validate_traces(module, cfg, trace_file, name, shards=8, timeout=600, max_reject=25):
+def validate_traces(module, cfg, trace_file, name, shards=8, timeout=600, max_reject=25, leftover=None):
     """Validate every scenario of trace_file. Returns (n_accepted, rejections, tlc_stats).
     A rejection is dict(script, line, event, kind, invariant, lines)."""
     from concurrent.futures import ThreadPoolExecutor
@@ -230,6 +230,8 @@ def validate_traces(module, cfg, trace_file, name, shards=8, timeout=600, max_re
                             lines=sc))
             acc += k
             chunk = chunk[k + 1:]
+        if chunk and len(rej) >= max_reject and leftover is not None:
+            leftover.extend(chunk)      # not looked at: too many rejections in this shard
         return acc, rej
 
     accepted, rejections = 0, []
@@ -240,7 +242,7 @@ def validate_traces(module, cfg, trace_file, name, shards=8, timeout=600, max_re
     return accepted, rejections, stats, len(scen)
 
 
-def second_opinion(module, cfg, rejections, name, timeout=600):
+def second_opinion(module, cfg, rejections, name, timeout=600, leftover=None):
     """A scenario that the step-by-step trace specification rejects is put to the specification of what can
     be observed from outside (trace points not required, silent steps): -> (still rejected, explained).
     A run whose internal steps are organised differently but which shows the same is not a violation."""
@@ -255,6 +257,15 @@ def second_opinion(module, cfg, rejections, name, timeout=600):
         verdicts = list(ex.map(work, list(enumerate(rejections))))
     still = [r for r, v in zip(rejections, verdicts) if v is not None]
     explained = [r for r, v in zip(rejections, verdicts) if v is None]
+    if leftover:
+        # scenarios the step-by-step run never got to (its shard had reached the cap of rejections)
+        lf = os.path.join(base, "leftover.ndjson")
+        with open(lf, "w") as f:
+            for sc in leftover:
+                f.write("".join(sc))
+        acc, rej, _, _ = validate_traces(module, cfg, lf, name + "_left", shards=12, timeout=timeout)
+        still += rej
+        explained += [None] * acc
     return still, explained
 
 
